@@ -71,7 +71,7 @@ def plan(tier):
     return {"shards": 16, "timeout": 900 if tier == "quick" else 4 * 3600,
             "required_monitors": ["keep1", "keepN", "transformed", "predicate", "kw-axis", "kw-out",
                                   "must-raise-or-convert"],
-            "required_tags": ["quantity-operand"]}
+            "required_tags": ["quantity-operand", "where-condition-as-list"]}
 
 
 def cases(ctx):
@@ -304,6 +304,11 @@ def _keepN(osy, rng, res, sig, name, form, dt, case):
     if name == "where":
         cond_v = rng.random(shape) < 0.5
         cond = osy.Array(values=cond_v) if rng.random() < 0.6 else cond_v
+        if np.shape(cond_v) and rng.random() < 0.4:
+            cond = cond_v.tolist()           # the condition written as a plain Python list (or tuple)
+            if rng.random() < 0.3:
+                cond = tuple(cond) if np.ndim(cond_v) == 1 else cond
+            res.tag("where-condition-as-list")
         call = lambda x, y, **k: np.where(cond, x, y)  # noqa: E731
         ref = lambda x, y, **k: np.where(cond_v, x, y)  # noqa: E731
         sig["cond"] = type(cond).__name__
